@@ -97,7 +97,8 @@ def polyHash (h : Nat) (s : String) : Nat :=
 def classOf {α} : Except Err α → Char
   | .ok _ => 'a'
   | .error .styleError => 's'
-  | .error _ => 'v'
+  | .error .invalidSpec => 'v'
+  | .error _ => 'r'
 
 /-- every string `pre ++ t`, `t` of length `k` over the alphabet: class per string + hash of the full results -/
 def sweepWith (f : List Char → Char × String) (alphabet pre : List Char) (k : Nat) : String :=
